@@ -205,15 +205,17 @@ Proof. exact ws_frozen. Qed.
     literals included):
       - NewTypeInfo fills every slot alike ([C13_C04_type_info_eq]);
       - the rule groups fragment declarations, arguments, directives (document and operations do not
-        look at the schema) answer alike on any document ([C13_C04_small_rule_groups]).
+        look at the schema) answer alike on any document ([C13_C04_small_rule_groups]);
+      - the rule group variables answers alike on the document NewTypeInfo annotated
+        ([C13_C04_variables_rule]).
     Open, gap named:
       - fragment spreads: FALSE on C04's model as it stands — its [possible_types] transcribes
         getPossibleTypes without the feature filter of the repaired code
         ([C13_C04_spread_rule_refuted_as_modelled]: the C13 witness in C04's encoding); needs the
         filter [t_req ⊆ F] over [s_impls] in Vld/ValidatorModel.v, then closes like QPossibleV here;
-      - fields (incl. merging), values, variables: follow from [C13_C04_type_info_eq] once it is
-        shown that every slot of the annotated document (scope, field definition, expected type,
-        variable type) holds a type visible to F — the invariant the lemmas of FeaturesVld.v carry
+      - fields (incl. merging), values: follow from [C13_C04_type_info_eq] once it is
+        shown that every slot of the annotated document (scope, field definition, expected type)
+        holds a type visible to F — the invariant the lemmas of FeaturesVld.v carry
         through NewTypeInfo ([vis_scope], [vis_field], [vis_osty]) but that is not yet stated on
         the output document. *)
 Theorem C13_C04_type_info_eq : forall (S : Vld.Ast.schema) (F G : Vld.Ast.features) q (D : Vld.Ast.document),
@@ -228,6 +230,14 @@ Theorem C13_C04_small_rule_groups : forall (S : Vld.Ast.schema) (F G : Vld.Ast.f
   ValidatorModel.rule_arguments q pi (FeaturesVld.verase S F) A = ValidatorModel.rule_arguments q pi S A /\
   ValidatorModel.rule_directives q (FeaturesVld.verase S F) A = ValidatorModel.rule_directives q S A.
 Proof. exact (fun S F G q pi A Hok HFG => FeaturesVld.rules_small_erase S F G Hok HFG q pi A). Qed.
+
+(** validateVariables reads the schema only for the input-type test of a variable's resolved type,
+    a slot NewTypeInfo fills with types visible to F: on the annotated document it answers alike *)
+Theorem C13_C04_variables_rule : forall (S : Vld.Ast.schema) (F G : Vld.Ast.features) q pi (D A : Vld.Ast.document),
+  FeaturesVld.vok S = true -> Vld.Ast.subset F G = true ->
+  TypeInfoModel.type_info q S F D = Some A ->
+  ValidatorModel.rule_variables pi (FeaturesVld.verase S F) A = ValidatorModel.rule_variables pi S A.
+Proof. exact (fun S F G q pi D A Hok HFG => FeaturesVld.rule_variables_erase S F G Hok HFG q pi D A). Qed.
 
 Theorem C13_C04_spread_rule_refuted_as_modelled :
   FeaturesVld.vok FeaturesVld.VW = true /\ Vld.Ast.subset nil (cons FeaturesVld.vfa nil) = true /\
@@ -375,6 +385,7 @@ Print Assumptions C13_feature_subscription_eq_partial.
 Print Assumptions C13_ws_features_fixed_at_init.
 Print Assumptions C13_C04_type_info_eq.
 Print Assumptions C13_C04_small_rule_groups.
+Print Assumptions C13_C04_variables_rule.
 Print Assumptions C13_C04_spread_rule_refuted_as_modelled.
 Print Assumptions C13_erase_schema_ok.
 Print Assumptions C13_enabling_is_monotone.
